@@ -86,6 +86,51 @@ fn step_div_mod_corners() {
         else { assert!(q == Some(a / b) && m == Some(a % b)) }
         j += 1; } i += 1; } }
 
+// @obligation owners=C06,C01 fn=eval_i64::ast::eval/Divide bounded="the one corner pair MIN / -1 (concrete): the quotient does not fit"
+#[kani::proof]
+fn step_div_min_by_minus_one() { assert!(ok(eval(Node::Divide(num(i64::MIN), num(-1)))).is_none(), "MIN / -1 overflows: Err"); }
+// @obligation owners=C06,C01 fn=eval_i64::ast::eval/Modulo bounded="the one corner pair MIN % -1 (concrete)"
+#[kani::proof]
+fn step_mod_min_by_minus_one() { assert!(ok(eval(Node::Modulo(num(i64::MIN), num(-1)))) == Some(0), "MIN % -1 is 0"); }
+
+// ---- n! and ^ -------------------------------------------------------------------------------------------------------
+fn fact128(n: i64) -> i128 { let mut r: i128 = 1; let mut i: i128 = 2; while i <= n as i128 && i <= 25 { r *= i; i += 1; } r }
+// @obligation owners=C06,C10,C15,C01,C02 fn=eval_i64::ast::eval/Factorial
+// full domain: for n >= 21 the product has left i64 after 20 multiplications, so the loop is left with Err whatever n is - the unwinding
+// assertion proves that bound (a loop that runs on to n is an unwinding failure: C02)
+#[kani::proof]
+#[kani::unwind(24)]
+fn step_factorial() { let n: i64 = kani::any();
+    match ok(eval(Node::Factorial(num(n)))) {
+        Some(v) => { if n >= 0 { assert!(n <= 20 && v as i128 == fact128(n), "n! exact for 0 <= n <= 20") } },
+        None => assert!(n > 20, "Err only when n! does not fit i64") } }
+macro_rules! pow_point_harness { ($name:ident, $a:expr, $e:expr, $want:expr) => {
+    #[kani::proof]
+    #[kani::unwind(10)]
+    fn $name() { let want: Option<i64> = $want; assert!(ok(eval(Node::Pow(num($a), num($e)))) == want, "a ^ e: the exact power, Err when it does not fit i64"); } } }
+// @obligation owners=C06,C15 fn=eval_i64::ast::eval/Pow bounded="the point 2 ^ 62 (concrete; symbolic bases need multipliers CBMC does not finish: the unbounded statement is V:i64-ast/eval/Pow)"
+pow_point_harness!(step_pow_2_62, 2, 62, Some(1i64 << 62));
+// @obligation owners=C06,C15 fn=eval_i64::ast::eval/Pow bounded="the point 2 ^ 63 (concrete): does not fit"
+pow_point_harness!(step_pow_2_63, 2, 63, None);
+// @obligation owners=C06,C15 fn=eval_i64::ast::eval/Pow bounded="the point (-2) ^ 63 (concrete) = i64::MIN"
+pow_point_harness!(step_pow_m2_63, -2, 63, Some(i64::MIN));
+// @obligation owners=C06,C15 fn=eval_i64::ast::eval/Pow bounded="the point 3 ^ 39 (concrete)"
+pow_point_harness!(step_pow_3_39, 3, 39, Some(4052555153018976267));
+// @obligation owners=C06,C15 fn=eval_i64::ast::eval/Pow bounded="the point 3 ^ 40 (concrete): does not fit"
+pow_point_harness!(step_pow_3_40, 3, 40, None);
+// @obligation owners=C06,C15 fn=eval_i64::ast::eval/Pow bounded="the point 7 ^ 0 (concrete)"
+pow_point_harness!(step_pow_7_0, 7, 0, Some(1));
+// @obligation owners=C06 fn=eval_i64::ast::eval/Pow bounded="base in {-1, 0, 1, 2}, exponent symbolic outside 0..=64 (an exponent outside 0..=4294967295 is Err; inside, the value by parity / overflow)"
+#[kani::proof]
+#[kani::unwind(40)]
+fn step_pow_exponent_range() { let e: i64 = kani::any(); kani::assume(e < 0 || e > 64);
+    let sel: u8 = kani::any(); kani::assume(sel < 4); let a: i64 = match sel { 0 => -1, 1 => 0, 2 => 1, _ => 2 };
+    match ok(eval(Node::Pow(num(a), num(e)))) {
+        Some(v) => { assert!(e > 64 && e <= u32::MAX as i64, "an exponent outside 0..=4294967295 yields Err");
+            assert!(a != 2, "2 ^ e does not fit for e > 64");
+            assert!(v == if a == 0 { 0 } else if a == 1 { 1 } else if e % 2 == 0 { 1 } else { -1 }, "0, 1, -1 to a large power") },
+        None => assert!(e < 0 || e > u32::MAX as i64 || a == 2, "Err only for an exponent out of range or a result that does not fit") } }
+
 // ---- real-valued functions of eval_i64: mapping (v as f64).prim() as i64 ------------------------------------------
 // @obligation owners=C10 fn=eval_i64::ast::eval/Sqrt
 #[kani::proof]
